@@ -425,6 +425,9 @@ def run(ctx):
     r7(ctx)
 
 
+RULE_FUNCS = [r1, r2, r3, r4, r5, r6, r7]
+
+
 def _rep(a, b):
     def edit(t):
         if a not in t:
